@@ -88,6 +88,7 @@ type Unit struct {
 	sentinels  map[string]Term
 	lockSnaps  map[string]*State
 	inlineSites []token.Pos // call positions (outermost first) of the inlined callees being executed
+	rootFn      *types.Func // the function under contract this unit (or literal unit) belongs to
 	curBin      string // source text of the binary expression being evaluated (obligation names)
 	loopRegion  bool // modified() is computing a loop's modified set
 	forceInline map[*types.Func]bool // bounded units: inline these (recursive) callees instead of using contracts
@@ -141,6 +142,7 @@ func (u *Unit) oblige(st *State, name, kind string, props []string, goal Term, p
 	if len(props) == 0 {
 		props = u.props
 	}
+	name = u.stableText(name)
 	o := &Obligation{Name: u.name + "/" + name, Kind: kind, Props: props, PC: append([]Term(nil), st.pc...), Goal: goal, Pos: u.pos(pos), Info: info, Unit: u}
 	switch kind {
 	case "bounds", "div", "nil", "make", "sub", "conv", "overflow", "panic", "assertion", "alloc":
